@@ -115,6 +115,30 @@ def handleGeom (op : Str) (args : List Str) : Option String :=
           | .error er => errLine er)
       | _ => none
     | _ => none
+  else if op == cs!"resolve_doc" then
+    -- in-order evaluation of a flat list of leaf elements (no retries): the model's `process_tags`
+    -- for documents whose references all point backwards
+    let els := args.map decodeElem
+    let step := fun (st : Ctx × List Str × Bool) (e : Elem) =>
+      let (ctx, outs, failed) := st
+      if failed then st
+      else
+        let r := do
+          let e ← e.resolvePosition ctx
+          let e ← e.transmuteDxDy
+          e.resolvePosition ctx
+        match r with
+        | .error er => (ctx, outs ++ [cs!"err:" ++ er.name.toList], true)
+        | .ok e' =>
+          let ctx := match e'.getAttr cs!"id" with
+            | some i => { ctx with elems := (i, e') :: ctx.elems }
+            | none => ctx
+          let ctx := match ctx.bb e' with
+            | .ok (some _) => { ctx with prev := some e' }
+            | _ => ctx
+          (ctx, outs ++ [encodeElem e'], false)
+    let (_, outs, _) := els.foldl step (({} : Ctx), [], false)
+    some (joinFields outs)
   else if op == cs!"elem_bbox" then
     match args with
     | n :: rest =>
